@@ -1,5 +1,7 @@
 /-!
-Model of golang.org/x/net/internal/httpsfv/httpsfv.go (C56), AS THE CODE IS.
+Model of golang.org/x/net/internal/httpsfv/httpsfv.go (C56), AS THE CODE IS (after the four
+`fix: internal/httpsfv: …` commits: inner lists must be closed, dictionary members need a comma,
+only SP is skipped inside inner lists / parameters, U+FFFD is a valid display-string rune).
 
 Strings are byte lists (`List Nat`, every element < 256).  Every Go `consumeX(s)` returning
 `(consumed, rest, ok)` becomes `consumeX s : Option (consumed × rest)` (`none` = `ok == false`;
@@ -33,6 +35,11 @@ def isTChar (b : Nat) : Bool :=
 def dropWS : List Nat → List Nat
   | [] => []
   | c :: r => if c != 32 && c != 9 then c :: r else dropWS r
+
+/-- `s[countLeftSP(s):]` — drops leading SP only. -/
+def dropSP : List Nat → List Nat
+  | [] => []
+  | c :: r => if c != 32 then c :: r else dropSP r
 
 /-- `decOctetHex`: lower-case hex only. -/
 def decBase16 (c : Nat) : Option Nat :=
@@ -221,7 +228,7 @@ def feedByte (buf : List Nat) (ch : Nat) : Option (List Nat) :=
   let b := buf ++ [ch]
   if fullRune b then
     let (r, sz) := decodeRune b
-    if r == runeError then none else some (b.drop sz)
+    if r == runeError && sz == 1 then none else some (b.drop sz)
   else if b.length ≤ 4 then some b else none
 
 /-- The loop of `consumeDisplayString` after the leading `%"`. -/
@@ -364,7 +371,7 @@ def paramLoop : Nat → List Nat → Option (List (List Nat × List Nat) × List
     | [] => some ([], [])
     | c :: r =>
       if c != 59 then some ([], rest)
-      else match consumeKey (dropWS r) with
+      else match consumeKey (dropSP r) with
         | none => none
         | some (key, r1) =>
           match r1 with
@@ -410,9 +417,9 @@ def innerLoop : Nat → List Nat → Option (List (List Nat × List Nat) × List
   | 0, _ => none
   | fuel + 1, rest =>
     match rest with
-    | [] => some ([], [])                     -- `for len(rest) != 0` exits: accepted (!)
+    | [] => none                              -- `for len(rest) != 0` exits: end of inner list not found
     | _ :: _ =>
-      match dropWS rest with
+      match dropSP rest with
       | 41 :: r => some ([], r)
       | rest1 =>
         match consumeBareItem rest1 with
@@ -500,13 +507,12 @@ def dictLoop : Nat → List Nat → Option (List (List Nat × List Nat × List N
             match dropWS s3 with
             | [] => some [(key, val, param)]
             | c :: s4 =>
-              -- `if s[0] == ',' { s = s[1:] }` — a missing comma is NOT an error in the Go code
-              let s5 := if c == 44 then s4 else c :: s4
-              match dropWS s5 with
-              | [] => none
-              | s6 => match dictLoop fuel s6 with
-                | none => none
-                | some cbs => some ((key, val, param) :: cbs)
+              if c != 44 then none
+              else match dropWS s4 with
+                | [] => none
+                | s6 => match dictLoop fuel s6 with
+                  | none => none
+                  | some cbs => some ((key, val, param) :: cbs)
 
 def parseDictionary (s : List Nat) : Option (List (List Nat × List Nat × List Nat)) :=
   dictLoop (s.length + 1) s
